@@ -453,7 +453,11 @@ func (x *runner) oneRep(scen string, st *mc.Stats, lim limiter, b []byte, via, d
 	}
 	anomaly, _ := refWalk(b)
 	var clauses0 map[string]bool
-	for conv := 0; conv < 2; conv++ {
+	nconv := 2
+	if isFileVia(via) {
+		nconv = 1 // a file on disk: os.File is the reader, there is no convention to vary
+	}
+	for conv := 0; conv < nconv; conv++ {
 		var slot int
 		if rep != nil {
 			slot = journalBeginIn(st, In{Conv: conv, Via: via, Desc: desc, Rep: rep})
@@ -501,7 +505,7 @@ func (x *runner) oneRep(scen string, st *mc.Stats, lim limiter, b []byte, via, d
 		if conv == 1 && st.WantSample() && len(b) < 200 && len(b)%7 == 3 {
 			st.Sample(map[string]interface{}{"via": via, "conv": conv, "desc": desc, "outcome": class, "hex": fmt.Sprintf("%x", b)})
 		}
-		if class == "load hang" {
+		if class == "load hang" || class == "loadfile hang" {
 			st.Evals--
 			return false
 		}
@@ -827,6 +831,71 @@ func Run(r *mc.Run) {
 			}
 			return true
 		})
+	// ---- deb.LoadFile: the .deb inputs written to a scratch file, opened by path, members read, then released
+	// through every sequence of one or two calls of the returned closer / Deb.Close; result compared with deb.Load ----
+	type fin struct {
+		desc string
+		b    []byte
+	}
+	var fileIns []fin
+	for _, b := range append(append([]base{}, debB...), debPre()) {
+		full := gen.ArmBuild(b.ms)
+		offs, _ := gen.ArmOffsets(b.ms)
+		fileIns = append(fileIns, fin{b.name + " well-formed", full})
+		for _, c := range singles(b.ms) {
+			fileIns = append(fileIns, fin{descOf(b, []corr{c}), gen.ArmBuild(apply(b.ms, []corr{c}))})
+		}
+		as, ds := rearrangements(b.ms)
+		for i, a := range as {
+			fileIns = append(fileIns, fin{b.name + " " + ds[i], gen.ArmBuild(a)})
+		}
+		cut := map[int]bool{}
+		for c := 0; c <= len(full); c++ {
+			if b.name == "deb-gz" || c%64 == 0 {
+				cut[c] = true
+			}
+		}
+		for _, o := range append(offs, len(full)) {
+			for _, d := range []int{-1, 0, 1, 59, 60, 61} {
+				if c := o + d; c >= 0 && c <= len(full) {
+					cut[c] = true
+				}
+			}
+		}
+		for c := 0; c <= len(full); c++ {
+			if cut[c] {
+				fileIns = append(fileIns, fin{fmt.Sprintf("%s truncated to %d of %d", b.name, c, len(full)), full[:c]})
+			}
+		}
+		for _, v := range []string{"2.0\n", "2.0", "", "1.0\n", "2.0\n\n", "2.0\nextra\n"} {
+			ms := append([]gen.ArmMember(nil), b.ms...)
+			for i := range ms {
+				if ms[i].Name == "debian-binary" {
+					ms[i] = mem("debian-binary", []byte(v))
+				}
+			}
+			fileIns = append(fileIns, fin{fmt.Sprintf("%s debian-binary=%q", b.name, v), gen.ArmBuild(ms)})
+		}
+	}
+	const fchunk = 32
+	poolScratchDirs()
+	r.Scenario("loadfile", map[string]interface{}{"inputs": len(fileIns), "close_patterns": ClosePatterns,
+		"menu":          "5 .deb bases (control/data stored or gzip, one with an empty leading member): well-formed, every single column corruption, every duplication/removal/permutation, truncations (deb-gz: every offset; others: every 64th offset and around every member boundary), 6 debian-binary contents",
+		"compared_with": "deb.Load on the same bytes"},
+		(len(fileIns)+fchunk-1)/fchunk, func(shard int, st *mc.Stats) bool {
+			lim := limiter{}
+			for i := shard * fchunk; i < (shard+1)*fchunk && i < len(fileIns); i++ {
+				for _, p := range ClosePatterns {
+					st.Transitions++
+					if !x.one("loadfile", st, lim, fileIns[i].b, fileVia(p), fileIns[i].desc) {
+						return false
+					}
+				}
+			}
+			return !r.Expired()
+		})
+	removeScratchDirs()
+
 	// ---- large inputs: long runs of one byte and very many members (a reader that does work per byte or per
 	// member - recursion, allocation - shows only here). 4 shards: at most 4 of these are in memory / on the stack
 	// at once; a stack overflow or out-of-memory kills the child process and is reported by the supervisor. ----
